@@ -157,6 +157,46 @@ Theorem C12_governance_only_endpoints : forall c o,
 Proof. exact gov_only_needs_governance. Qed.
 Print Assumptions C12_governance_only_endpoints.
 
+(** MsgIbcTransferRequest, as an equivalence: a restricted marker (whatever its status), TRANSFER
+    on the administrator (FORCE_TRANSFER does not stand in), a positive covered amount, and either
+    the administrator's own account or an accepting MarkerTransferAuthorization of the sender,
+    which is reduced / deleted by the use.  There is no forced ibc transfer: the variant sharing
+    TransferCoin's source logic is refuted. *)
+Theorem C12_ibc_transfer_rules : forall x g',
+  ibc_transfer x = Some g' <->
+  (x_type x = TRestricted /\ has RTransfer (x_rights x) = true /\
+   0 < m_amt (x_msg x) <= x_frombal x /\
+   ((x_self x = true /\ g' = x_grant x) \/
+    (x_self x = false /\ exists g r, x_grant x = Some g /\ accept g (x_msg x) = Some r /\ g' = stored_after r))).
+Proof. exact ibc_transfer_iff. Qed.
+Print Assumptions C12_ibc_transfer_rules.
+
+Theorem C12_ibc_forced_branch_refuted : exists x g',
+  x_self x = false /\ x_grant x = None /\
+  ibc_transfer_gen true accept x = Some g' /\ ibc_transfer x = None.
+Proof. exact ibc_forced_branch_refuted. Qed.
+Print Assumptions C12_ibc_forced_branch_refuted.
+
+(** The whole-supply escape of AddAccess / DeleteAccess reads the supply RECORDED on the marker:
+    a caller without ADMIN who is not the manager gets through only with a balance equal to the
+    (non-zero) recorded supply, whatever the bank says exists; comparing with the bank supply
+    instead is refuted (floating marker recorded at 1000, 600 coins left, all with the caller). *)
+Theorem C12_all_supply_is_the_recorded_supply : forall c sf o,
+  (o = OAddAccess \/ o = ODeleteAccess) ->
+  has RAdmin (c_rights c) = false -> c_manager c = false ->
+  decide (with_supply c sf) o = Done ->
+  sf_balance sf = sf_record sf /\ sf_record sf <> 0.
+Proof. exact all_supply_is_the_recorded_supply. Qed.
+Print Assumptions C12_all_supply_is_the_recorded_supply.
+
+Theorem C12_circulating_supply_variant_refuted : exists c sf o,
+  c_rights c = 0%N /\ c_manager c = false /\ c_gov c = false /\
+  sf_balance sf = sf_bank sf /\ sf_balance sf < sf_record sf /\
+  decide (with_supply_circulating c sf) o = Done /\ decide (with_supply c sf) o = Denied /\
+  req_met (with_supply c sf) (documented o (c_status c) (c_type c)) = false.
+Proof. exact circulating_supply_variant_refuted. Qed.
+Print Assumptions C12_circulating_supply_variant_refuted.
+
 (** Every rpc of the marker module's `service Msg` (read off tx.proto on every run) and every
     exported method of its msgServer, with the guarded keeper methods each reaches, is one of the
     documented endpoints: a new endpoint without a row breaks this.  Every operation of the
